@@ -221,6 +221,16 @@ Definition value_gaps : list (string * string * string * string) := [
   G "/MigrateEvents/[*]/eventType" "max-int64" "differs" "unreachable: the command carries an int32";
   G "/MigrateEvents/[*]/eventType" "max-uint32+1" "differs" "unreachable: the command carries an int32";
   G "/MigrateEvents/[*]/eventType" "min-int32-1" "differs" "unreachable: the command carries an int32";
+  G "/Databases/[*]/RetentionPolicies/[*]/Measurements/[*]/ShardIdexes/[*]/[*]" "max-int32+1" "differs" "unreachable: positions in a shard list, written as int32";
+  G "/Databases/[*]/RetentionPolicies/[*]/Measurements/[*]/ShardIdexes/[*]/[*]" "max-int64" "differs" "unreachable: positions in a shard list, written as int32";
+  G "/Databases/[*]/RetentionPolicies/[*]/Measurements/[*]/ShardIdexes/[*]/[*]" "max-uint32+1" "differs" "unreachable: positions in a shard list, written as int32";
+  G "/Databases/[*]/RetentionPolicies/[*]/Measurements/[*]/ShardIdexes/[*]/[*]" "min-int32-1" "differs" "unreachable: positions in a shard list, written as int32";
+  G "/MigrateEvents/[*]/pt/Shards/[*]/Ident/StartTime" "epoch" "differs" "outside: balancer events; the shard durations a store attaches to an event go through MarshalTime/UnmarshalTime, where 0 is the zero time";
+  G "/MigrateEvents/[*]/pt/Shards/[*]/Ident/StartTime" "before-int64-ns" "differs" "outside: balancer events; see:C16-restore-wraps-early-group-start";
+  G "/MigrateEvents/[*]/pt/Shards/[*]/Ident/StartTime" "after-int64-ns" "differs" "unreachable: group ends are capped at MaxNanoTime + 1";
+  G "/MigrateEvents/[*]/pt/Shards/[*]/Ident/EndTime" "epoch" "differs" "outside: balancer events; the shard durations a store attaches to an event go through MarshalTime/UnmarshalTime, where 0 is the zero time";
+  G "/MigrateEvents/[*]/pt/Shards/[*]/Ident/EndTime" "before-int64-ns" "differs" "outside: balancer events; see:C16-restore-wraps-early-group-start";
+  G "/MigrateEvents/[*]/pt/Shards/[*]/Ident/EndTime" "after-int64-ns" "differs" "unreachable: group ends are capped at MaxNanoTime + 1";
   G "/MigrateEvents/[*]/pt/DBBriefInfo/Name" "*" "differs" "outside: balancer events; marshal writes the partition's own database name, which is what the stores send";
   G "/MigrateEvents/[*]/pt/DBBriefInfo/Replicas" "max-int32+1" "differs" "unreachable: the command carries an int32";
   G "/MigrateEvents/[*]/pt/DBBriefInfo/Replicas" "max-int64" "differs" "unreachable: the command carries an int32";
